@@ -341,7 +341,17 @@ func zzValidationTx(wide bool) (*VersionedTransaction, *zzTxInfo) {
 		if zzOnlyScript {
 			kinds = 0
 		}
-		switch vr.Choose(0, kinds) {
+		choice := 0
+		if !wide && !zzOnlyScript && i == 1 {
+			// quick: the second input is ordinary or carries a mint marker (decodable; must not slip
+			// through as an ordinary transfer)
+			if vr.Bool() {
+				choice = 2
+			}
+		} else {
+			choice = vr.Choose(0, kinds)
+		}
+		switch choice {
 		case 1, 4:
 			d := &DepositData{AssetKey: "0xkey", Transaction: "txid", Index: vr.U64()}
 			vr.Fill(d.Chain[:])
